@@ -93,7 +93,7 @@ def model_check(work, decls, progs, modes=None, chunk=None, timeout=1800, name='
             flags = json.load(open(out))['flags']
         return r, flags
 
-    res = pl.pmap(one, range(nchunks), workers=min(nchunks, pl.NCPU))
+    res = pl.pmap(one, range(nchunks), workers=min(nchunks, 10))
     flags = []
     states = trans = 0
     outs = []
@@ -178,5 +178,5 @@ def trace_validate(work, decls, progs, traces_by_decl, per_prog=6, cap=600, time
             fails.append((owner[reached[0] - 1], reached[0], reached[1], tt[reached[0] - 1]['events'][max(0, reached[1] - 2): reached[1] + 1]))
         return len(tt) if not fails else reached[0] - 1, dist, fails
 
-    res = pl.pmap(one, range(nchunks), workers=min(nchunks, pl.NCPU))
+    res = pl.pmap(one, range(nchunks), workers=min(nchunks, 10))
     return sum(r[0] for r in res), sum(r[1] for r in res), [f for r in res for f in r[2]]
